@@ -447,24 +447,34 @@ def check_edges(ctx, lc, pa, dirs, case):
         unwrapped = {e: exact_unwrapped_edge(pos, edges, crossing, e) for e in sel}
         fl = {e: (np.array([float(a[0]), float(a[1])]), np.array([float(b[0]), float(b[1])])) for e, (a, b) in unwrapped.items()}
         owner = [None] * len(segs)
-        # multiset bookkeeping: an unwrapped segment may belong to several identical edges
-        groups = {e: [] for e in sel}
+        # identical edges (same unwrapped segment up to an integer translate, e.g. duplicated edges of a multigraph)
+        # cannot be told apart in the drawing: they are checked together as one class
+        rep = {}
+        for e in sel:
+            for r in sel:
+                if r in rep and rep[r] == r and match_translate(np.array(fl[e]), *fl[r]) is not None:
+                    rep[e] = r
+                    break
+            else:
+                rep[e] = e
+        classes = sorted(set(rep.values()))
+        groups = {r: [] for r in classes}
         for k, s in enumerate(segs):
-            cand = []
-            for e in sel:
-                tau = match_translate(s, *fl[e])
+            for r in classes:
+                tau = match_translate(s, *fl[r])
                 if tau is not None:
-                    cand.append((e, tau))
-            if not cand:
+                    owner[k] = r
+                    groups[r].append((k, tau))
+                    break
+            else:
                 res.violation("edges:stray-segment", f"{what}: drawn segment {s.tolist()} is not a periodic image of a selected edge", case)
-                continue
-            # identical parallel edges: give the piece to the candidate with the fewest pieces at this translate
-            cand.sort(key=lambda et: sum(1 for (kk, t2) in groups[et[0]] if t2 == et[1]))
-            e, tau = cand[0]
-            owner[k] = e
-            groups[e].append((k, tau))
-        mult = {e: idx.count(e) for e in sel}
-        occ_labels = {e: sorted(scheme_rgba(pa["scheme"], per_elem[i]) for i in idx if i == e) for e in sel}
+        for r in classes:
+            if any(e in skip for e in sel if rep[e] == r):
+                skip.add(r)
+        mult = {r: sum(1 for i in idx if rep[i] == r) for r in classes}
+        occ_labels = {r: sorted(scheme_rgba(pa["scheme"], per_elem[i]) for i in idx if rep[i] == r) for r in classes}
+        multi = len(classes) < len(sel)
+        sel = classes
         g_lines = []
         g_edges = []
         for e in sel:
@@ -488,7 +498,7 @@ def check_edges(ctx, lc, pa, dirs, case):
         if with_dirs:
             if len(arrows) != len(segs):
                 res.violation("edges:arrow-count", f"{what}: {len(segs)} drawn pieces but {len(arrows)} arrows", case)
-            elif not skip and all(e is not None for e in owner):
+            elif not skip and not multi and all(e is not None for e in owner):
                 exp_arrows = []
                 for k, sg in enumerate(segs):
                     v = (sg[1] - sg[0]) * dirs[owner[k]]
